@@ -208,6 +208,57 @@ fn peaks() {
     println!("{{\"programs\":[{}]}}", out.join(","));
 }
 
+/// Programs with a non-empty source type, run with `BitMachine::input`.
+fn peaks_with_input() {
+    use simplicity::Value;
+    let mut out: Vec<String> = vec![];
+    let mut run = |name: &str, input: Value, build: &dyn for<'b> Fn(&Context<'b>) -> CN<'b>| {
+        let redeem = Context::with_context(|ctx| build(&ctx).finalize_unpruned().expect("finalize"));
+        let r = std::panic::catch_unwind(std::panic::AssertUnwindSafe(|| {
+            let mut mac = BitMachine::for_program(&redeem).expect("limits");
+            mac.input(&input).expect("input type");
+            let ok = mac.exec(&redeem, &simplicity::jet::CoreEnv::new()).is_ok();
+            (ok, mac.verif_max_cells(), mac.verif_max_frames(), mac.verif_capacity())
+        }));
+        let b = redeem.bounds();
+        let (sw, tw) = (redeem.arrow().source.bit_width(), redeem.arrow().target.bit_width());
+        let (panicked, ok, mc, mf, cap) = match r {
+            Ok((ok, mc, mf, cap)) => (false, ok, mc, mf, cap),
+            Err(_) => (true, false, 0, 0, (0, 0)),
+        };
+        out.push(format!(
+            "{{\"name\":\"{}\",\"panicked\":{},\"ok\":{},\"tree\":{},\"max_cells\":{},\"max_frames\":{},\"io_cells\":{},\"io_frames\":{},\"extra_cells\":{},\"extra_frames\":{},\"cap_bits\":{},\"tight\":{}}}",
+            name, panicked, ok, tree(&redeem), mc, mf, sw + tw, (sw > 0) as usize + (tw > 0) as usize,
+            b.extra_cells, b.extra_frames, cap.0, !has_case(&redeem)
+        ));
+    };
+    run("jet add_8:u16", Value::u16(0xbeef), &|ctx| CN::jet(ctx, &simplicity::jet::Core::Add8));
+    run("comp(jet add_32, unit):u64->1", Value::u64(77), &|ctx| {
+        CN::comp(&CN::jet(ctx, &simplicity::jet::Core::Add32), &CN::unit(ctx)).unwrap()
+    });
+    run("comp(pair(iden,iden), jet add_8):u8", Value::u8(200), &|ctx| {
+        CN::comp(&CN::pair(&CN::iden(ctx), &CN::iden(ctx)).unwrap(), &CN::jet(ctx, &simplicity::jet::Core::Add8)).unwrap()
+    });
+    run("comp(take(iden), jet low_8 after unit):u64xu64", Value::product(Value::u64(1), Value::u64(2)), &|ctx| {
+        // take(jet add_32) : u64 x B -> 2 x u32 with B forced to u64 by a pair with drop(jet add_32)
+        CN::pair(&CN::take(&CN::jet(ctx, &simplicity::jet::Core::Add32)), &CN::drop_(&CN::jet(ctx, &simplicity::jet::Core::Add32))).unwrap()
+    });
+    run("case on input bit (heavy right)", Value::product(Value::u1(1), Value::unit()), &|ctx| {
+        let heavy = CN::comp(&CN::unit(ctx), &CN::comp(&CN::const_word(ctx, Word::u64(9)), &CN::unit(ctx)).unwrap()).unwrap();
+        CN::case(&CN::unit(ctx), &heavy).unwrap()
+    });
+    run("case on input bit (frames on the light side)", Value::product(Value::u1(1), Value::unit()), &|ctx| {
+        // left: many cells, one frame; right: few cells, four frames
+        let l = CN::comp(&CN::unit(ctx), &CN::comp(&CN::const_word(ctx, Word::u64(9)), &CN::unit(ctx)).unwrap()).unwrap();
+        let mut r = CN::comp(&CN::const_word(ctx, Word::u1(1)), &CN::unit(ctx)).unwrap();
+        for _ in 0..4 {
+            r = CN::comp(&CN::unit(ctx), &r).unwrap();
+        }
+        CN::comp(&CN::case(&l, &r).unwrap(), &CN::unit(ctx)).unwrap()
+    });
+    println!("{{\"programs\":[{}]}}", out.join(","));
+}
+
 /// A 65..70-byte program whose middle type has a saturated (>= 2^64) bit width
 /// and whose children need at least one extra cell.
 fn bounds_overflow(kind: &str) {
@@ -250,7 +301,7 @@ fn bounds_overflow(kind: &str) {
     );
 }
 
-fn jet_rows<J: simplicity::jet::Jet + PartialEq + Copy>(all: &[J]) -> String {
+fn jet_rows<J: simplicity::jet::Jet + PartialEq + Copy + std::fmt::Debug>(all: &[J]) -> String {
     use simplicity::{BitIter, BitWriter};
     let mut rows = vec![];
     for j in all {
@@ -268,8 +319,8 @@ fn jet_rows<J: simplicity::jet::Jet + PartialEq + Copy>(all: &[J]) -> String {
         let ok = matches!(back, Ok(x) if x == *j) && it.n_total_read() == n;
         let parses = matches!(J::parse(&j.to_string()), Ok(x) if x == *j);
         rows.push(format!(
-            "{{\"name\":\"{}\",\"code\":\"{}\",\"decodes_back\":{},\"parses_back\":{}}}",
-            j, code, ok, parses
+            "{{\"name\":\"{}\",\"variant\":\"{:?}\",\"code\":\"{}\",\"decodes_back\":{},\"parses_back\":{}}}",
+            j, j, code, ok, parses
         ));
     }
     format!("[{}]", rows.join(","))
@@ -340,20 +391,33 @@ fn code_of<J: simplicity::jet::Jet>(j: &J) -> String {
     (0..n).map(|i| if v[i / 8] >> (7 - i % 8) & 1 == 1 { '1' } else { '0' }).collect()
 }
 
-fn jet_check_in<J: simplicity::jet::Jet + PartialEq + Copy>(all: &[J], name: &str, core: bool) {
+fn jet_check_in<J: simplicity::jet::Jet + PartialEq + Copy + std::fmt::Debug>(all: &[J], variant: &str, core: bool) {
     use simplicity::jet::{Elements, Jet};
-    let j = all.iter().find(|j| j.to_string() == name).expect("jet name");
+    use simplicity::BitIter;
+    let j = all.iter().find(|j| format!("{:?}", j) == variant).expect("jet variant");
     let row = jet_rows(std::slice::from_ref(j));
     let mut extra = String::new();
     if core {
-        // the Elements namesake: same name, same type names, code = 0 || core code
-        let ok = match Elements::ALL.iter().find(|e| e.to_string() == name) {
-            Some(e) => {
-                e.source_ty().0 == j.source_ty().0
-                    && e.target_ty().0 == j.target_ty().0
-                    && code_of(e) == format!("0{}", code_of(j))
+        // the Elements namesake: decoding 0 || core code with the Elements decoder gives a jet
+        // with the same name and type names, consuming exactly those bits, and that jet's own
+        // code is 0 || core code
+        let code = format!("0{}", code_of(j));
+        let mut bytes = vec![0u8; (code.len() + 7) / 8 + 1];
+        for (i, c) in code.chars().enumerate() {
+            if c == '1' {
+                bytes[i / 8] |= 1 << (7 - i % 8);
             }
-            None => false,
+        }
+        let mut it = BitIter::from(&bytes[..]);
+        let ok = match Elements::decode(&mut it) {
+            Ok(e) => {
+                it.n_total_read() == code.len()
+                    && e.to_string() == j.to_string()
+                    && e.source_ty().0 == j.source_ty().0
+                    && e.target_ty().0 == j.target_ty().0
+                    && code_of(&e) == code
+            }
+            Err(_) => false,
         };
         extra = format!(",\"namesake_ok\":{}", ok);
     }
@@ -398,6 +462,23 @@ fn limits_family() {
             Err(_) => "{\"panicked_before_exec\":true,\"refused\":false}".to_string(),
         });
     }
+    // a comp chain whose frame bound exceeds the hard limit (1 048 576): must be refused
+    let r = std::panic::catch_unwind(|| {
+        let redeem = Context::with_context(|ctx| {
+            let mut x = CN::unit(&ctx);
+            for _ in 0..(1usize << 20) + 8 {
+                x = CN::comp(&CN::unit(&ctx), &x).unwrap();
+            }
+            x.finalize_unpruned().expect("finalize")
+        });
+        let b = redeem.bounds();
+        let refused = BitMachine::for_program(&redeem).is_err();
+        format!("{{\"extra_frames\":{},\"refused\":{},\"exec_panicked\":false}}", b.extra_frames, refused)
+    });
+    rows.push(match r {
+        Ok(s) => s,
+        Err(_) => "{\"panicked_before_exec\":true,\"refused\":false}".to_string(),
+    });
     println!("{{\"programs\":[{}]}}", rows.join(","));
 }
 
@@ -408,6 +489,7 @@ fn main() {
         "convert" => convert(&args[1..]),
         "peaks" => peaks(),
         "limits_family" => limits_family(),
+        "peaks_with_input" => peaks_with_input(),
         "jets" => jets(),
         "jet_decode" => match args[1].as_str() {
             "Core" => jet_decode_in::<simplicity::jet::Core>(&args[2]),
